@@ -405,6 +405,13 @@ func (st *Runtime) executeYieldBlock(block *BlockNode, blockParam, yieldParam *B
 func (st *Runtime) executeList(list *ListNode) (returnValue reflect.Value) {
 	inNewScope := false // to use just one scope for multiple actions with variable declarations
 
+	// a nested list that executed no {{return}} must not clobber the value of an earlier one
+	returned := func(v reflect.Value) {
+		if v.IsValid() {
+			returnValue = v
+		}
+	}
+
 	for i := 0; i < len(list.Nodes); i++ {
 		node := list.Nodes[i]
 		switch node.Type() {
@@ -459,9 +466,9 @@ func (st *Runtime) executeList(list *ListNode) (returnValue reflect.Value) {
 			}
 
 			if isTrue(st.evalPrimaryExpressionGroup(node.Expression)) {
-				returnValue = st.executeList(node.List)
+				returned(st.executeList(node.List))
 			} else if node.ElseList != nil {
-				returnValue = st.executeList(node.ElseList)
+				returned(st.executeList(node.ElseList))
 			}
 			if isLet {
 				st.releaseScope()
@@ -527,11 +534,11 @@ func (st *Runtime) executeList(list *ListNode) (returnValue reflect.Value) {
 					if valVarSlot < 0 {
 						st.context = rangeValue
 					}
-					returnValue = st.executeList(node.List)
+					returned(st.executeList(node.List))
 					indexValue, rangeValue, end = ranger.Range()
 				}
 			} else if node.ElseList != nil {
-				returnValue = st.executeList(node.ElseList)
+				returned(st.executeList(node.ElseList))
 			}
 			cleanup()
 			st.context = context
@@ -540,7 +547,7 @@ func (st *Runtime) executeList(list *ListNode) (returnValue reflect.Value) {
 			}
 		case NodeTry:
 			node := node.(*TryNode)
-			returnValue = st.executeTry(node)
+			returned(st.executeTry(node))
 		case NodeYield:
 			node := node.(*YieldNode)
 			if node.IsContent {
@@ -563,7 +570,7 @@ func (st *Runtime) executeList(list *ListNode) (returnValue reflect.Value) {
 			st.executeYieldBlock(block, block.Parameters, block.Parameters, block.Expression, block.Content)
 		case NodeInclude:
 			node := node.(*IncludeNode)
-			returnValue = st.executeInclude(node)
+			returned(st.executeInclude(node))
 		case NodeReturn:
 			node := node.(*ReturnNode)
 			returnValue = st.evalPrimaryExpressionGroup(node.Value)
